@@ -14,7 +14,7 @@ import itertools
 
 from .common import *   # noqa: F401,F403
 from pyvc.core import Builtin
-from . import C02, C14
+from . import C02, C14, reader
 
 MC = 'propka.molecular_container.MolecularContainer'
 CC = 'propka.conformation_container.ConformationContainer'
@@ -104,7 +104,8 @@ def task_average_twins(pr, repo):
     fi = repo.func(MC + '.average_of_conformations')
     CCls = repo.cls(CC)
     names = ['1A', '1B']
-    for kind in ('hetero: equal label, different residue number', 'equal atom label (same chain and number)'):
+    for kind in ('hetero: equal label, different residue number', 'equal atom label (same chain and number)',
+                 'own: one residue with two groups of one type (C-terminal ASP: side chain and C-, both COO)'):
         def thunk(ex, ctx, kind=kind):
             partner = C02.mkgroup(repo, 'partner', (0, 0, 0), label='LYS  99 A')
             confs, allg = {}, {}
@@ -115,6 +116,11 @@ def task_average_twins(pr, repo):
                     if kind.startswith('hetero'):
                         g.attrs['label'] = 'ACT   C A'
                         g.attrs['atom'].attrs.update(type='hetatm', residue_label='C  %4d A' % (101 + gi), res_num=101 + gi)
+                    elif kind.startswith('own'):
+                        g.attrs['atom'].attrs.update(residue_label=('CG   60 A', 'OXT  60 A')[gi], res_num=60, icode=' ',
+                                                     name=('CG', 'OXT')[gi])
+                        g.attrs['label'] = ('ASP  60 A', 'C-   60 A')[gi]
+                        g.attrs['residue_type'] = ('ASP', 'C-')[gi]
                     else:
                         g.attrs['atom'].attrs.update(residue_label='CG   29 A', res_num=29)
                         g.attrs['label'] = 'ASP  29 A'
@@ -127,7 +133,7 @@ def task_average_twins(pr, repo):
             avr = confs.get('AVR')
             ag = avr.attrs['groups'] if isinstance(avr, Obj) else []
             ctx.oblige('AVT[%s]: two distinct groups per conformation => two averaged groups are reported' % kind, len(ag) == 2)
-            if kind.startswith('hetero') and len(ag) == 2:
+            if kind.startswith(('hetero', 'own')) and len(ag) == 2:
                 conj = []
                 for gi in range(2):
                     a = ag[gi]
@@ -268,7 +274,7 @@ def task_sorter(pr, repo):
 
 def run(pr, repo):
     pr.parallel([(task_average, (3,)), (task_average, (2,)), (task_average_twins, ()), (task_topup, ()), (task_topup_conformations, ()), (task_sorter, ()),
-                 (C14.task_make_copy, ())])
+                 (C14.task_make_copy, ()), (reader.task_nterm, ())])   # every alternate location of a chain start is tagged N+
     pr.assumptions += ['AV: two group identities over 2 and 3 conformations, one determinant per type and conformation '
                        '(values symbolic); more groups behave independently (find_group matches by atom label and type)',
                        'residue identity = atom label (name, number, chain) as in the code: insertion codes are not part of it '
